@@ -203,8 +203,18 @@ def gen_page(rng, selfname=None):
         fields = [f":{rng.choice(['template', 'hidefeedback', 'selectors', 'default_tabs', 'headings', 'ia', 'tabs', 'x', 'multi_page_tutorial_settings'])}: {rng.choice(['foo', '', 'drivers', '1'])}".rstrip()
                   for _ in range(rng.randint(1, 2))]
         lines = fields + [""] + lines
+    deep = rng.random() < 0.3
+    if deep:
+        # a page with an on-page table of contents limited to a depth, and sections that go deeper than that: what sits in the deep
+        # sections is skipped by the table of contents but walked by every handler all the same
+        lines += [".. contents::"] + ([f"   :depth: {rng.choice([0, 1, 1, 2])}"] if rng.random() < 0.8 else []) + [""]
+    level = 0
     for _ in range(rng.randint(1, 6)):
-        lines += gen_chain(rng) if rng.random() < 0.15 else gen_block(rng, 0)
+        if deep and rng.random() < 0.5:
+            level = min(level + 1, 3) if rng.random() < 0.7 else max(level - 1, 1)
+            title = f"Section level {level}"
+            lines += [title, "-~^"[level - 1] * len(title), ""]
+        lines += gen_chain(rng) if rng.random() < (0.4 if deep else 0.15) else gen_block(rng, 0)
         if selfname and rng.random() < 0.15:
             # a file that runs into its own include cycle more than once within one expansion
             lines += [f".. include:: /{selfname}", ""]
